@@ -135,6 +135,9 @@ class SimFile:
         return self._f.read(*a)
 
     def readline(self, *a):
+        # a line-by-line scan (HTML title, link file, gophermap, mailbox) can be interleaved with another
+        # worker's between any two lines
+        self._seam._yield("read")
         return self._f.readline(*a)
 
     def readlines(self, *a):
